@@ -155,11 +155,29 @@ def _prune(keep):
     by_kind = {}
     for d in ds:
         by_kind.setdefault(os.path.basename(d).split("-")[0], []).append(d)
+    now = time.time()
     for kind, lst in by_kind.items():
         lst.sort(key=lambda d: os.path.getmtime(d), reverse=True)
         for d in lst[3:]:
-            if d != keep:
+            # a directory used within the last two hours may belong to a check that is running right now
+            # (another seed, a scratch copy given by VERIF_REPO): every use touches it, see _use()
+            if d != keep and now - os.path.getmtime(d) > 7200:
                 shutil.rmtree(d, ignore_errors=True)
+
+
+def _use(path):
+    """Marks the cache directory that holds `path` as in use (see _prune)."""
+    d = path
+    while d and os.path.dirname(d) != BUILD_ROOT:
+        nd = os.path.dirname(d)
+        if nd == d:
+            return path
+        d = nd
+    try:
+        os.utime(d, None)
+    except OSError:
+        pass
+    return path
 
 
 def asn1c_binary(variant="plain"):
@@ -168,10 +186,10 @@ def asn1c_binary(variant="plain"):
     bdir = os.path.join(BUILD_ROOT, "cc-" + h)
     exe = os.path.join(bdir, "asn1c." + variant)
     if os.path.exists(exe):
-        return exe
+        return _use(exe)
     with Lock("cc"):
         if os.path.exists(exe):
-            return exe
+            return _use(exe)
         os.makedirs(bdir, exist_ok=True)
         cfg = _config_h_dir(bdir)
         flags = ["-g", "-O1", "-w", "-DHAVE_CONFIG_H", "-I" + cfg]
@@ -210,7 +228,7 @@ def asn1c_binary(variant="plain"):
         _run([CLANG] + lflags + objs + ["-o", tmp], what="link asn1c")
         os.rename(tmp, exe)
         _prune(bdir)
-    return exe
+    return _use(exe)
 
 
 def skel_hash():
@@ -223,10 +241,10 @@ def skel_lib(variant="asan"):
     bdir = os.path.join(BUILD_ROOT, "sk-" + h)
     lib = os.path.join(bdir, "libskel.%s.a" % variant)
     if os.path.exists(lib):
-        return lib
+        return _use(lib)
     with Lock("sk-" + variant):
         if os.path.exists(lib):
-            return lib
+            return _use(lib)
         odir = os.path.join(bdir, "obj." + variant)
         os.makedirs(odir, exist_ok=True)
         flags = VARIANT_FLAGS[variant] + ["-w", HOOK_DEFINE, "-I" + os.path.join(REPO, "skeletons")]
@@ -242,7 +260,7 @@ def skel_lib(variant="asan"):
         _run(["ar", "rcs", tmp] + objs, what="ar")
         os.rename(tmp, lib)
         _prune(bdir)
-    return lib
+    return _use(lib)
 
 
 def skel_obj(name, variant):
@@ -260,7 +278,7 @@ def helper_obj(src_name, variant, extra_flags=(), cxx=False):
     tag = hashlib.sha1((" ".join(extra_flags)).encode()).hexdigest()[:6]
     o = os.path.join(bdir, "%s.%s.%s.%s.o" % (src_name.replace("/", "_"), variant, h[:10], tag))
     if os.path.exists(o):
-        return o
+        return _use(o)
     flags = VARIANT_FLAGS[variant] + ["-Wall", "-Wno-unused-function", HOOK_DEFINE,
                                       "-I" + os.path.join(REPO, "skeletons"), "-I" + CDIR] + list(extra_flags)
     tmp = o + ".tmp%d" % os.getpid()
@@ -268,7 +286,7 @@ def helper_obj(src_name, variant, extra_flags=(), cxx=False):
          what="cc " + src_name)
     os.rename(tmp, o)
     _prune(bdir)
-    return o
+    return _use(o)
 
 
 def tool_binary(name, variant="asan"):
@@ -277,10 +295,10 @@ def tool_binary(name, variant="asan"):
     bdir = os.path.join(BUILD_ROOT, "tl-" + h)
     exe = os.path.join(bdir, "%s.%s" % (name, variant))
     if os.path.exists(exe):
-        return exe
+        return _use(exe)
     with Lock("tl"):
         if os.path.exists(exe):
-            return exe
+            return _use(exe)
         os.makedirs(bdir, exist_ok=True)
         cfg = _config_h_dir(bdir)
         flags = VARIANT_FLAGS[variant] + ["-w", "-DHAVE_CONFIG_H", "-I" + cfg,
@@ -302,7 +320,7 @@ def tool_binary(name, variant="asan"):
         _run([CLANG] + flags + srcs + [skel_lib(variant), "-lm", "-o", tmp], what="build " + name)
         os.rename(tmp, exe)
         _prune(bdir)
-    return exe
+    return _use(exe)
 
 
 def warm(variants=("asan",)):
